@@ -126,6 +126,7 @@ func (*hbits) Run(rc *core.RunCtx) *core.RunResult {
 	s := samples[t.Intn(len(samples))]
 	data := corpus.Data(s)
 	errorsCfg := rc.Config == "errors"
+	prop := rc.PropOr("C05", "C01") // as the system tier of C01 the same oracle reports under C01
 	bf := bitsFormats[t.Intn(len(bitsFormats))]
 	mode := t.Intn(10) // 0..4 listing, 5 raw root, 6 raw path, 7 listing with many values, 8..9 batch conversion
 	knobs := map[string]int{"cacheReadAheadSize": aheadKnobs[t.Intn(len(aheadKnobs))], "progressPrecision": precKnobs[t.Intn(len(precKnobs))]}
@@ -170,11 +171,11 @@ func (*hbits) Run(rc *core.RunCtx) *core.RunResult {
 	res.Sample = map[string]any{"sample": s.Rel, "format": s.Format, "bits_format": bf, "mode": mode, "knobs": fmt.Sprint(knobs), "policy": run.Stats.Policy, "exit": run.Res.Exit, "disk_calls": o.Disk.Calls}
 	res.Probes["disk_calls"] += o.Disk.Calls
 	what := fmt.Sprintf("fq %s (%s)", strings.Join(args[1:], " "), s.Rel)
-	if !run.abnormal(res, "C05", what) {
+	if !run.abnormal(res, prop, what) {
 		return res
 	}
 	viol := func(oracle, key, f string, a ...any) {
-		res.Violate("C05", oracle, key, fmt.Sprintf(f, a...)+"\n  "+what+fmt.Sprintf("\n  knobs %v policy %s exit %d stderr %q", knobs, run.Stats.Policy, run.Res.Exit, firstN(string(run.Res.Stderr), 300)))
+		res.Violate(prop, oracle, key, fmt.Sprintf(f, a...)+"\n  "+what+fmt.Sprintf("\n  knobs %v policy %s exit %d stderr %q", knobs, run.Stats.Policy, run.Res.Exit, firstN(string(run.Res.Stderr), 300)))
 		if res.Trace == nil {
 			res.Trace = run.Trace
 		}
